@@ -1,5 +1,7 @@
+pub mod edit;
 pub mod lat;
 pub mod rel;
+pub mod safe;
 pub mod scope;
 pub mod sel;
 pub mod stream;
